@@ -18,6 +18,15 @@ import (
 func (a *Analyzer) Classify(rule string) {
 	for _, l := range a.Loops {
 		c := &bodyCtx{a: a, l: l, info: l.Pkg.TypesInfo, locals: map[types.Object]bool{}}
+		// the loop's own variables (for k, v := range …) are per-iteration: adjusting one is not an accumulation
+		if rs, ok := ast.Node(l.Stmt).(*ast.RangeStmt); ok && rs.Tok == token.DEFINE {
+			if l.Key != nil {
+				c.locals[l.Key] = true
+			}
+			if l.Val != nil {
+				c.locals[l.Val] = true
+			}
+		}
 		c.walk(l.Body.List, "")
 		l.Effects = dedup(l.Effects)
 		a.loopCarriedReads(c)
@@ -483,6 +492,14 @@ var projections = map[string]string{
 func (a *Analyzer) comparatorTotal(info *types.Info, e ast.Expr) (bool, string) {
 	fl, ok := ast.Unparen(e).(*ast.FuncLit)
 	if !ok {
+		// a named comparator: a local variable holding one function literal, or a function of the repository
+		if id, isID := ast.Unparen(e).(*ast.Ident); isID {
+			if lit, litInfo := a.namedComparator(info, id); lit != nil {
+				fl, info, ok = lit, litInfo, true
+			}
+		}
+	}
+	if !ok {
 		return false, "comparator is not a function literal"
 	}
 	if fl.Type.Params == nil {
@@ -498,6 +515,73 @@ func (a *Analyzer) comparatorTotal(info *types.Info, e ast.Expr) (bool, string) 
 		return false, "comparator does not take two elements"
 	}
 	return a.comparatorPaths(info, fl, params)
+}
+
+// namedComparator resolves an identifier used as a comparator to the function literal it stands for: the one
+// literal a local variable is initialised with (and never re-assigned), or the body of a repository function.
+func (a *Analyzer) namedComparator(info *types.Info, id *ast.Ident) (*ast.FuncLit, *types.Info) {
+	obj := objOf(info, id)
+	if obj == nil || obj.Pkg() == nil || !load.IsRepoPkg(obj.Pkg()) {
+		return nil, nil
+	}
+	pk := a.P.Pkgs[load.ShortPkg(obj.Pkg())]
+	if pk == nil {
+		return nil, nil
+	}
+	pinfo := pk.TypesInfo
+	switch o := obj.(type) {
+	case *types.Func:
+		for _, f := range pk.Syntax {
+			for _, d := range f.Decls {
+				if fd, ok := d.(*ast.FuncDecl); ok && fd.Body != nil && fd.Recv == nil && pinfo.Defs[fd.Name] == o {
+					return &ast.FuncLit{Type: fd.Type, Body: fd.Body}, pinfo
+				}
+			}
+		}
+	case *types.Var:
+		var lit *ast.FuncLit
+		writes := 0
+		for _, f := range pk.Syntax {
+			if f.Pos() > o.Pos() || o.Pos() > f.End() {
+				continue
+			}
+			ast.Inspect(f, func(n ast.Node) bool {
+				switch s := n.(type) {
+				case *ast.AssignStmt:
+					for i, l := range s.Lhs {
+						lid, ok := l.(*ast.Ident)
+						if !ok || objOf(pinfo, lid) != obj {
+							continue
+						}
+						writes++
+						if len(s.Rhs) == len(s.Lhs) {
+							lit, _ = ast.Unparen(s.Rhs[i]).(*ast.FuncLit)
+						}
+					}
+				case *ast.ValueSpec:
+					for i, n := range s.Names {
+						if pinfo.Defs[n] == obj {
+							writes++
+							if i < len(s.Values) {
+								lit, _ = ast.Unparen(s.Values[i]).(*ast.FuncLit)
+							}
+						}
+					}
+				case *ast.UnaryExpr:
+					if s.Op == token.AND {
+						if lid, ok := ast.Unparen(s.X).(*ast.Ident); ok && objOf(pinfo, lid) == obj {
+							writes += 2 // address taken: may be re-assigned elsewhere
+						}
+					}
+				}
+				return true
+			})
+		}
+		if writes == 1 && lit != nil {
+			return lit, pinfo
+		}
+	}
+	return nil, nil
 }
 
 func isCompare(info *types.Info, c *ast.CallExpr) bool {
